@@ -111,6 +111,18 @@ func c14ops() []c14op {
 			}
 			nm.Nodes = append(nm.Nodes, md)
 		}},
+		{"append metadata def with explicit sparse ID", "append-metadata-explicit", "metadata", func(w *c14world) bool {
+			for _, d := range w.m.MetadataDefs {
+				if d.ID() == 7 {
+					return false
+				}
+			}
+			return true
+		}, func(w *c14world) {
+			// a node that already carries a number (as one taken from a parsed module does).
+			md := &metadata.Tuple{MetadataID: 7, Fields: []metadata.Field{&metadata.String{Value: "z"}}}
+			w.m.MetadataDefs = append(w.m.MetadataDefs, md)
+		}},
 		{"prepend metadata def", "insert-metadata", "metadata", func(w *c14world) bool { return len(w.m.MetadataDefs) > 0 }, func(w *c14world) {
 			md := &metadata.Tuple{MetadataID: -1, Fields: []metadata.Field{&metadata.String{Value: "y"}}}
 			w.m.MetadataDefs = append([]metadata.Definition{md}, w.m.MetadataDefs...)
@@ -488,7 +500,7 @@ func runC14(c *fw.Check) {
 		maxLen, maxLen2 = 5, 4
 		c.SetBudget(40 * 60 * 1e9)
 	}
-	c.Rule = fmt.Sprintf("all edit histories of length <=%d over %d edit operations (append/insert/remove instructions, set/replace terminators (incl. value-producing unnamed invokes), name/rename/unname values, blocks and globals, add globals/functions/blocks, name a struct type in use, append/prepend metadata; <=2 functions, <=3 blocks) on a fresh module, replayed from scratch; for each history the observer-free run is the reference and EVERY placement of one observer (of %d kinds) at every position is executed (two observers for histories of length <=%d); oracle: final String() equals the reference, no panic on a complete module, String() twice identical. distinct = (history, observer placement).", maxLen, len(ops), len(obs), maxLen2)
+	c.Rule = fmt.Sprintf("all edit histories of length <=%d over %d edit operations (append/insert/remove instructions, set/replace terminators (incl. value-producing unnamed invokes), name/rename/unname values, blocks and globals, add globals/functions/blocks, name a struct type in use, append/prepend metadata, append a metadata definition that already carries a sparse explicit ID; <=2 functions, <=3 blocks) on a fresh module, replayed from scratch; for each history the observer-free run is the reference and EVERY placement of one observer (of %d kinds) at every position is executed (two observers for histories of length <=%d); oracle: final String() equals the reference, no panic on a complete module, String() twice identical. distinct = (history, observer placement).", maxLen, len(ops), len(obs), maxLen2)
 	// enumerate histories (BFS over enabled ops).
 	var hists [][]int
 	var rec func(seq []int)
